@@ -15,9 +15,21 @@
        commit offsets,
      - by a second follower that installs a snapshot cut from the first follower's DB after the chosen offset
        (real chunker - chunk size varied -, real snapshot loader, handleSnapshot) and is fed the rest,
-   and the full ordered dumps of the four DBs (every key incl. session, shadow, index, notification,
-   commit-offset and version-counter keys; only the term keys left out) must be equal.
-3. code -> spec: random request streams (bigger key space, more operations per request) through the real leader,
+     - by both followers once more after a restart (close = flush, new controller on the same directories),
+   and the full ordered dumps of the DBs (every key incl. session, shadow, index, notification,
+   commit-offset and version-counter keys; only the term keys left out) must be equal.  Every replica is also
+   read: each record TLC has after the log (for the first follower also after the cut, before and after the
+   snapshot flushed its memory) by a point get, and the probes TLC put into the route record (floor / ceiling /
+   lower / higher gets, range lists and scans) with the answers TLC computed.
+   OxiaDbBlocks.tla draws the sequences that matter to the storage engine: all keys of length 1..3 over the
+   bytes '-' '.' '/' '0' 'a', values with a size (up to 70 KB, so that a shard spans many 64 KB storage blocks
+   with boundaries between arbitrary neighbours), bulk puts, deletes, range deletes, restarts.
+3. live leader with replication factor 3 (code -> spec): the write requests of the storage-scale sequences are
+   issued by concurrent writers to a real leader whose entries are committed by the racing acknowledgements of
+   two real followers (in-process streams).  The leader's own log and the state it exposes afterwards are
+   recorded; TLC (DbLogTrace.tla) folds Apply over the log and must arrive at the exposed state; the same log
+   replayed in order by a fresh leader must give the same dump.
+4. code -> spec: random request streams (bigger key space, more operations per request) through the real leader,
    recorded and judged by TLC (DbTrace.tla with records, index keys, shadow keys, notification batches and the
    version counter in scope); the same route comparison at the end of every trace.
 """
@@ -28,8 +40,10 @@ import vf
 
 
 def _show(mm):
-    return "[%s] cut after offset %s, commit lag %s, chunk %s bytes" % (
-        _db.show_beh([s for s in mm["behaviour"] if s["a"] != "Routes"]), mm.get("cut"), mm.get("lag"), mm.get("chunk"))
+    b = _db.show_beh([s for s in mm["behaviour"] if s["a"] != "Routes"])
+    if len(b) > 1500:
+        b = b[:1500] + " ... (%d calls, see the replay file)" % len(mm["behaviour"])
+    return "[%s] cut after offset %s, commit lag %s, chunk %s bytes" % (b, mm.get("cut"), mm.get("lag"), mm.get("chunk"))
 
 
 def _routes(ctx, binp, path, label, chunk=0):
@@ -39,7 +53,8 @@ def _routes(ctx, binp, path, label, chunk=0):
     res["mismatches"] = res.get("mismatches") or []
     ctx.replayed += res["behaviours"]
     ctx.log("%s: %d sequences (%d requests through the live leader) x route choices = %d behaviours, each: leader vs WAL replay vs follower vs "
-            "snapshot-installed follower by full dump, chunk size %s: %d mismatch class(es); %d notification batches differ in their stored encoding only" %
+            "snapshot-installed follower vs both followers restarted, by full dump and by the reads TLC demands, chunk size %s: %d mismatch class(es); "
+            "%d notification batches differ in their stored encoding only" %
             (label, res["sequences"], res["steps"], res["routes"], chunk or "default", len(res["mismatches"]), res["notification_encodings_differing"]))
     for i, mm in enumerate(res["mismatches"]):
         p = ctx.save_replay("c06-%s-%d.json" % (label, i), mm)
@@ -50,13 +65,59 @@ def _routes(ctx, binp, path, label, chunk=0):
     return res
 
 
+def _live(ctx, binp, path, label, groups):
+    """Route 'applied live on an RF=3 leader under concurrent writers': recorded log + exposed state judged by TLC."""
+    tp = os.path.join(ctx.scratch, "live-%s.ndjson" % label)
+    out = os.path.join(ctx.scratch, "live-%s.json" % label)
+    ctx.run([binp, "live", "-in", path, "-out", tp, "-res", out, "-groups", str(groups), "-writers", "4"])
+    res = json.load(open(out))
+    for i, mm in enumerate(res.get("mismatches") or []):
+        p = ctx.save_replay("c06-live-%s-%d.json" % (label, i), mm)
+        ctx.violation("the database of a live leader (replication factor 3, concurrent writers) is not what its own log gives when applied in order: %s "
+                      "- log of %d entries in the replay file" % (mm["what"][:700], len(mm["behaviour"]) - 2), p)
+    r = ctx.tlc("DbLogTrace", "db-logtrace.cfg", files=[(tp, "trace.ndjson")], workers=1, deque=True, label="live-" + label,
+                seed=False, allow_violation=True, heap="2g")
+    lines = open(tp).read().splitlines()
+    if r.ok:
+        ctx.traces_validated += res["sequences"]
+        ctx.replayed += res["sequences"]
+        ctx.log("live RF=3 leaders [%s]: %d shards, %d entries logged under 4 concurrent writers and two acknowledging followers; DbLogTrace accepts "
+                "every log + exposed state (%d lines); dumps equal to the in-order replay of the log: %d difference(s)" %
+                (label, res["sequences"], res["steps"], len(lines), len(res.get("mismatches") or [])))
+        return
+    hw = 0
+    for l in r.out.splitlines():
+        if l.startswith('<<"REJECTED"'):
+            hw = int(l.split(",")[1])
+    if hw == 0:
+        raise vf.Inconclusive("DbLogTrace failed without a rejection mark:\n%s" % "\n".join(r.out.splitlines()[-30:]))
+    bad = min(hw, len(lines)) - 1
+    ev = json.loads(lines[bad])
+    start = bad
+    while start > 0 and json.loads(lines[start])["a"] != "Reset":
+        start -= 1
+    calls = [json.loads(x) for x in lines[start: bad + 1]]
+    p = ctx.save_replay("c06-live-%s-line%d.json" % (label, bad), {"mode": "rf3", "kind": "live", "behaviour": calls, "step": len(calls) - 1,
+                        "what": "the live leader is not Apply folded over its log (DbLogTrace rejects the last line)"})
+    if res.get("mismatches"):
+        return      # (reported above with the first differing key)
+    if ev["a"] == "State":
+        ctx.violation("the state a live leader (replication factor 3, concurrent writers) exposes is not its log applied in order: DbLogTrace rejects the "
+                      "state recorded after %d entries (%d records exposed) %s" % (len(calls) - 2, len(ev["recs"]), ev.get("err", "")), p)
+    else:
+        ctx.violation("the notification batch a live leader (replication factor 3, concurrent writers) serves for offset %d is not what its log entry gives "
+                      "when the log is applied in order: [%s] -> %s %s" % (ev["off"], _db.show_req(ev["req"])[:600], json.dumps(ev["nf"])[:600], ev.get("err", "")), p)
+
+
 def run(ctx):
     quick = ctx.tier == "quick"
     ctx.assumptions += [
         "the log applied by the other routes is the one the live leader wrote (read from a copy of its WAL directory); entries carry the leader's timestamps",
         "notification batches are compared by content (shard, offset, timestamp, per key: type, version id, range end): their stored encoding is a protobuf map without a fixed order and differs between replicas",
         "the term keys (__oxia/term, __oxia/term-options) are not part of the comparison",
-        "flush points are the leader restarts TLC places (close flushes Pebble) and the snapshot checkpoint",
+        "flush points are the leader restarts TLC places (close flushes Pebble), the snapshot checkpoint and the restart of the followers; "
+        "Pebble's own background flushes / compactions happen when they happen",
+        "read probes are asked of the database of each replica (kv.DB Get / List / RangeScan), the live leader is also read through its public API after every request",
     ]
     r = ctx.tlc("OxiaDbMC", "db-c06-quick.cfg", label="laws", heap="4g")
     ctx.log("laws incl. ReplayInv (3 steps x 1 op over the mixed alphabet): %d distinct states, %d transitions" % (r.distinct, r.generated))
@@ -64,10 +125,32 @@ def run(ctx):
         r = ctx.tlc("OxiaDbMC", "db-c06-thorough.cfg", label="laws2", heap="4g")
         ctx.log("laws incl. ReplayInv (2 steps x <=2 ops): %d distinct states, %d transitions" % (r.distinct, r.generated))
 
+    r = ctx.tlc("OxiaDbBlocks", "db-c06blk-laws.cfg", label="blk-laws", heap="4g")
+    ctx.log("laws over the hostile key alphabet with sized values, incl. ReplayInv and ProbeLaw (3 steps x 1 op): %d distinct states, %d transitions" % (r.distinct, r.generated))
+
     binp = ctx.go_build("routecheck")
     w = 4 if quick else 8
+    # storage scale: hostile keys, values with sizes, flush / reopen routes, read probes
+    blocks = [("db-c06blk-runs.cfg", 20 if quick else 60, 4096)]
+    if not quick:
+        blocks += [("db-c06blk-runs-own.cfg", 25, 300), ("db-c06blk-runs.cfg", 25, 0)]
+    for i, (cfg, num, chunk) in enumerate(blocks):
+        label = "blocks%s" % (i or "")
+        r = ctx.tlc("OxiaDbBlocks", cfg, simulate="num=%d" % num, depth=16, workers=w, label=label, heap="4g")
+        path = os.path.join(ctx.scratch, "%s.ndjson" % label)
+        if _db.export(r, "RUN", path) == 0:
+            raise vf.Inconclusive("TLC exported no behaviours for %s" % cfg)
+        _routes(ctx, binp, path, label, chunk)
+        _live(ctx, binp, path, label, 4 if quick else 8)
+        if i == 0:
+            with open(path) as f:
+                beh = json.loads(f.readline())
+            ctx.samples.append({"kind": "storage-scale sequence (value number = KB * 1000000 + serial) + routes + read probes chosen by TLC",
+                                "requests": _db.show_beh([s for s in beh if s["a"] != "Routes"])[:1500],
+                                "routes": [{"cut_after_offset": s["off"], "commit_lag": s["ts"], "probe_gets": len(s["gets"]), "probe_ranges": len(s["lists"])}
+                                           for s in beh if s["a"] == "Routes"]})
     # sequences x every (cut, lag) the last level offers
-    path, n, _ = _db.tlc_export(ctx, "db-c06-runs.cfg", "RUN", "runs", simulate="num=%d" % (30 if quick else 80), depth=12, workers=w)
+    path, n, _ = _db.tlc_export(ctx, "db-c06-runs.cfg", "RUN", "runs", simulate="num=%d" % (26 if quick else 80), depth=12, workers=w)
     _routes(ctx, binp, path, "mixed", 0)
     with open(path) as f:
         beh = json.loads(f.readline())
@@ -105,15 +188,29 @@ def run(ctx):
                             "what": "recorded call is not a step of OxiaDb.tla"})
         ctx.violation("live leader execution rejected by DbTrace at call #%d of [%s]" % (len(calls) - 1, _db.show_beh(calls)[-600:]), p)
     ctx.notes["exhaustive"] = False
-    ctx.notes["explanation"] = ("states/transitions: TLC exhaustive search of OxiaDbMC mode c06 (laws) plus simulated sequences; every sequence was executed "
-                                "on a real leader and re-applied by WAL replay, a real follower and a snapshot-installed follower; oracle = TLC's expected "
-                                "state per step + equality of full DB dumps")
+    ctx.notes["explanation"] = ("states/transitions: TLC exhaustive search of OxiaDbMC mode c06 and OxiaDbBlocks (laws) plus simulated sequences; every sequence "
+                                "was executed on a real leader and re-applied by WAL replay, a real follower, a snapshot-installed follower and both followers "
+                                "restarted; oracle = TLC's expected state per step, TLC's answers to the read probes on every replica, equality of full DB "
+                                "dumps; the storage-scale requests were also applied live by RF=3 leaders under concurrent writers, log + exposed state "
+                                "judged by DbLogTrace")
 
 
 def replay(ctx, path):
     path = os.path.abspath(path)
     mm = json.load(open(path))
     binp = ctx.go_build("routecheck")
+    if mm.get("mode") == "rf3":
+        # the interleaving is the scheduler's: the logged requests are issued again by concurrent writers
+        src = os.path.join(ctx.scratch, "rf3.ndjson")
+        with open(src, "w") as f:
+            f.write(json.dumps(mm["behaviour"]) + "\n")
+        nv = len(ctx.violations)
+        for k in range(5):
+            _live(ctx, binp, src, "rerun%d" % k, 1)
+            if len(ctx.violations) > nv:
+                return
+        ctx.log("5 re-executions of the logged requests under concurrent writers: the leader's state was its log applied in order every time")
+        return
     tp = os.path.join(ctx.scratch, "rerun.ndjson")
     out = os.path.join(ctx.scratch, "rerun.json")
     ctx.run([binp, "rerun", "-in", path, "-out", tp, "-res", out])
